@@ -241,6 +241,54 @@ func c09Wide(c *core.Ctx) bool {
 		c.Violation("result-depends-on-order|many-issues", map[string]any{"schema": "{a: Slice(String().Min(3)), b: Slice(String().Min(3)), n: String().Min(3)}", "input": "a and b: 700 items \"x\" each, n: \"y\"", "distinct_key_sets_over_8_runs": seen})
 		return false
 	}
+	// whatever these mean, they mean the same on every run: a map whose keys spell list positions (twice, for one of them) where a list
+	// is expected; a test function written for another type (it panics: every time, or never) next to failing siblings; a validated
+	// value whose embedded pointer is nil
+	outs := map[string]int{}
+	for i := 0; i < 40; i++ {
+		var l []string
+		m := z.Slice(z.String().Min(3)).Parse(map[string]any{"0": "go", "1": "zog", "01": "zod", "2": "x"}, &l)
+		c.Eval(1)
+		outs[fmt.Sprintf("%v [%s]", l, dKeys(m))]++
+	}
+	if len(outs) != 1 {
+		c.Violation("result-depends-on-order|map-where-a-list-is-expected", map[string]any{"schema": "Slice(String().Min(3))", "input": "map[string]any{0: go, 1: zog, 01: zod, 2: x}", "distinct_results_over_40_runs": outs})
+		return false
+	}
+	outs = map[string]int{}
+	type order struct{ Sku string }
+	type acct struct {
+		Orders []order
+		Name   string
+		Email  string
+	}
+	for i := 0; i < 40; i++ {
+		st := z.Struct(z.Schema{
+			"orders": z.Slice(z.Struct(z.Schema{"sku": z.String()}).TestFunc(func(v any, ctx z.Ctx) bool { return v.(*acct) != nil })), // written for another type
+			"name":   z.String().Min(5),
+			"email":  z.String().Email(),
+		})
+		res := ""
+		func() {
+			defer func() {
+				if r := recover(); r != nil {
+					res = "panic"
+				}
+			}()
+			var d acct
+			res = dKeys(st.Parse(map[string]any{"orders": []any{map[string]any{"sku": "a"}}, "name": "x", "email": "y"}, &d))
+		}()
+		c.Eval(1)
+		outs[res]++
+	}
+	if len(outs) != 1 {
+		c.Violation("result-depends-on-order|mismatched-test-function", map[string]any{"schema": "{orders: Slice(Struct{sku}.TestFunc(asserts another type)), name: String().Min(5), email: String().Email()}", "distinct_results_over_40_runs": outs})
+		return false
+	}
+	if o2, _ := dValidateNilEmbedded(20); len(o2) != 2 {
+		c.Violation("result-depends-on-order|Validate-with-a-nil-embedded-pointer", map[string]any{"schemas": "{Rev, By, title} and {Rev, DStamp: Ptr(Struct{Note: Required}), title} validating struct{ *DStamp(nil); Title }", "distinct_results_over_20_runs_each": o2})
+		return false
+	}
 	c.Count("wide_rounds", 1)
 	return true
 }
